@@ -15,7 +15,7 @@ for l in open('/verif/properties.jsonl'):
     p=json.loads(l)
     if p['id']==pid: prop=p
 text=f"[{prop['id']}] {prop['title']}\n\nStatement: {prop['statement']}\n\nQuantified over: {prop['quantifier']['text']}\n\nWhy the existing tests cannot settle it: {prop['why_tests_cant']}\n\nCode anchors: files {', '.join(prop['anchors']['files'])}; mechanisms: " + '; '.join(m['name']+' ('+m['where']+')' for m in prop['anchors']['mechanism'])
-t=open('/tmp/seed/PROMPT.tmpl').read()
+t=open('/verif/tools/seed_prompt.tmpl').read()
 t=t.replace('@DIR@',f'/tmp/seed/{id}').replace('@PROP@',text).replace('@PID@',pid).replace('@ID@',id).replace('@HINT@',hint)
 open(f'/tmp/seed/{id}.prompt','w').write(t)
 PY
